@@ -6,11 +6,11 @@ BOUNDED = ("Bounded symbolic model checking of the real code: the solver's UNSAT
            "nothing is claimed outside them. ")
 CHECKS = {
  "C01": dict(engine="kani", technique="Kani/CBMC bounded model checking of every operator function per operand-tag tuple (symbolic payloads), overflow/panic checks + range oracles",
-   text=BOUNDED + "Every strict operator function is executed by CBMC on every payload of every supported operand-tag tuple with Kani's panic, arithmetic-overflow, cast and bounds checks on; cast cells assert that an Ok result equals the operand's mathematical value. Decimal and chrono cells run the dependencies' real code (Decimal at scale 0).",
-   note="Trusted: Kani/CBMC model of MIR, CaDiCaL. One operator application per harness; composite expressions, eval_rec, context.rs, function.rs, and string/list/map operands with contents are outside. Decimal operands at scales > 0 are outside for + - *.", ref="3/C01"),
+   text=BOUNDED + "Every strict operator function is executed by CBMC on every payload of every supported operand-tag tuple with Kani's panic, arithmetic-overflow, cast and bounds checks on; cast cells assert that an Ok result equals the operand's mathematical value. chrono cells run chrono's real code; Decimal + - * / % are decided in the quick tier by recorders (a non-panicking checked_* entry point of rust_decimal is used; replayed natively on Decimal::MAX/MIN/0) and in the thorough tier on rust_decimal's real code at scale 0.",
+   note="Trusted: Kani/CBMC model of MIR, CaDiCaL. One operator application per harness; composite expressions, context.rs, function.rs, and string/list/map operands with contents are outside. Decimal operands at scales > 0 run only through the recorders.", ref="3/C01"),
  "C02": dict(engine="kani", technique="Kani/CBMC differential harness per operator-table cell against a reference table (symbolic payloads); recorder stubs for rust_decimal/chrono operations",
-   text=BOUNDED + "One harness per supported cell of the operator table asserts the exact result (value or error class) for every payload; dependency arithmetic is abstracted by recorders (which operation, which operands, which order, pass-through) and additionally run on the real rust_decimal code at scale 0.",
-   note="Trusted: rust_decimal / chrono arithmetic itself; CBMC float model (Float / and % only by identities). Int * / % exact-value cells are width-staged (32/16-bit operands quick, 64/32 thorough). The ~40 strict eval_rec arms are read, not executed: an arm rewired to another function is not decided.", ref="3/C02"),
+   text=BOUNDED + "One harness per supported cell of the operator table asserts the exact result (value or error class) for every payload; dependency arithmetic is abstracted by recorders (which operation, which operands, which order, pass-through) and additionally run on the real rust_decimal code at scale 0 (thorough); each binary strict arm of the dispatcher is executed on a verbatim copy of its right-hand side (arm slices): its function receives the sub-results in field order and its result is returned.",
+   note="Trusted: rust_decimal / chrono arithmetic itself; CBMC float model (Float / and % only by identities). Int * / % exact-value cells are width-staged (32/16-bit operands quick, 64/32 thorough). The `match` dispatch of eval_rec (pattern -> arm) is read from the source; and/or, list, map, call arms are not executed.", ref="3/C02"),
  "C03": dict(engine="kani", technique="Kani/CBMC harness per (operator, ordered non-None tag pair) outside the supported set: result must be Err(InvalidType) for all payloads",
    text=BOUNDED + "Every unsupported ordered pair of non-None operand tags of every strict operator (all Int/Float/Decimal mixes included) yields Err(InvalidType) for every payload.",
    note="Equality of different types is decided on the real equality helper with the eval_rec oracle (str \"1\" / dec / int / float pairs). and/or are out of CBMC's reach (only if's condition and bool::try_from are decided, under C05/C17); quick runs all numeric mixes + all unary + a seed-rotated quarter of the rest.", ref="3/C03"),
@@ -24,8 +24,8 @@ CHECKS = {
    text=BOUNDED + "The Rule/MetaItem productions derive exactly `(@ key : expr ;)* expr` with items in textual order and the expression subtree equal to the parse of the remaining tokens (z3); RuleBuilder's name precedence (metadata over comment), description precedence and the missing-name error (Kani).",
    note="Weakest claim of the set: last-occurrence-wins, rejection of non-constant / non-string-name metadata (RuleBuilder::parse: no CBMC verdict even for one entry) and comment-line extraction in Rule::parse are NOT decided.", ref="3/C14"),
  "C05": dict(engine="kani", technique="Kani/CBMC on the real lazy helpers (`iif`, the equality helper of == / !=) with Expr::eval_rec stubbed by a logging oracle; exact evaluation log and result asserted for every kind of operand result",
-   text=BOUNDED + "`if` evaluates its condition and then exactly the selected branch (nothing after a failing or non-boolean condition); == / != do not evaluate the right operand when the left is None and otherwise evaluate both once, left first. One harness per kind of condition / operand result with symbolic payloads; native replay through the public API with a call-logging non-cacheable user function.",
-   note="Only `if`, `==`, `!=`. NOT decided: `and` / `or` (four formulations exhausted 37-46 GB without a verdict), list / map / call-argument order, operand order and `?` short-circuit of the ~40 strict arms inside eval_rec. The oracle replaces the recursive dispatcher: no real sub-expression is evaluated under Kani.", ref="3/C05, 10.2"),
+   text=BOUNDED + "`if` evaluates its condition and then exactly the selected branch (nothing after a failing or non-boolean condition); == / != do not evaluate the right operand when the left is None and otherwise evaluate both once, left first. Every strict arm of the dispatcher, its right-hand side copied verbatim into its own async fn, evaluates its sub-expressions exactly once in field order, stops at the first error and returns its function's result. Native replay through the public API with a call-logging non-cacheable user function.",
+   note="NOT decided: `and` / `or` (four formulations exhausted 37-46 GB without a verdict), list / map / call-argument order (eval_vec / eval_map / Function arm), the `match` dispatch itself (read from the pattern text). The oracle replaces the recursive dispatcher: no real sub-expression is evaluated under Kani.", ref="3/C05, 10.2"),
  "C06": dict(engine="kani", technique="Kani/CBMC on reval's parse helpers, string unescaping and the verbatim IndexExpr action over every ASCII token text of listed lengths admitted by the token's regex (acceptor compiled from the source regex)",
    text=BOUNDED + "For every regex token whose text reaches reval's own code and every listed length, all ASCII texts admitted by the token's regex are run through the helper / action; Kani's panic, unwrap, slice-bound and char-boundary checks decide (e.g. the 20/21-digit list index).",
    note="Lexer (regex-automata) and lalrpop driver totality are third-party and outside; float/decimal parsers and integer parsers at >=20 digits are stubbed total; Rule::parse comment extraction and RuleBuilder outside; string literals: shapes with <=2 body characters.", ref="3/C06"),
@@ -40,7 +40,7 @@ CHECKS = {
    note="Function names only: duplicate detection for rules and functions (add_boxed_function gave no CBMC verdict), symbol overwrite and invocability are NOT decided.", ref="3/C15"),
  "C16": dict(engine="z3", technique="z3 inductive print->parse step per node kind over the Display templates and grammar extracted from the source (children as opaque phrases of symbolic level); z3 queries on the lexer DFA for literal shapes and for seams between adjacent rendered pieces",
    text=BOUNDED + "(i) for every node kind the extracted Display template, with every child an opaque phrase of any grammar level, derives to exactly that node with those children (induction on depth: unbounded nesting); (ii) every literal rendering shape up to the bound is one token of its class; (iii) no token pattern matches across a seam where two rendered pieces touch. Counterexamples are round-tripped through the real parser and printer.",
-   note="Trusted: template/grammar extraction shapes (un-encodable source => exit 2), core::fmt number shapes and from_str(to_string(x))==x; lists/maps with 0-2 items; literal shapes <= 5 (8) code points; string contents by Kani only in the thorough tier (1-2 chars).", ref="3/C16"),
+   note="Templates are read from the source text of the Display impls; when that shape is not understood they are observed by running the real printer on marker expressions (all parent/position/child-kind combinations; compositionality assumed, spot-checked at depth 3). Trusted: core::fmt number shapes and from_str(to_string(x))==x; lists/maps with 0-2 items; literal shapes <= 5 (8) code points; string contents by Kani only in the thorough tier (1-2 chars).", ref="3/C16"),
  "C17": dict(engine="kani", technique="Kani/CBMC harness per conversion and per (target, source tag) over the whole source type",
    text=BOUNDED + "Every integer extraction over all i128 values, every widening over the whole source type, same-kind round trips, every wrong-kind extraction (error carries the same value), Option, and small containers.",
    note="Containers beyond 2 elements / 1 entry and HashMap are outside; container harnesses that time out are listed inconclusive.", ref="3/C17"),
